@@ -46,7 +46,7 @@ CHECKS['C07'] = dict(
    ref='DESIGN.md §4 C07')
 CHECKS['C17'] = dict(
    technique='exhaustive product of failing-program templates x all whitespace/CRLF/tab/multibyte/comment prefixes up to a length bound, x 3 ways of submitting the sources, oracle computed from the generated text; two failures inside one single-stepped program',
-   text='129 failing-program templates (unknown word / run-time failure at top level, inside definitions, loops, meta blocks, injected text, included files, call depth 1-3, later sources on the same interpreter) x every layout string of <= 5 (quick) / 6 (thorough) atoms over {space, tab, LF, CRLF, multibyte word, line comment}; reported source name, token byte range, line, column (characters), quoted line and pretty_error text must equal the values computed from the text.',
+   text='174 failing-program templates (unknown word / run-time failure at top level, inside definitions, loops, meta blocks, injected text, included files, call depth 1-3, later sources on the same interpreter) x every layout string of <= 5 (quick) / 6 (thorough) atoms over {space, tab, LF, CRLF, multibyte word, line comment}; reported source name, token byte range, line, column (characters), quoted line and pretty_error text must equal the values computed from the text.',
    note='Culprit tokens spanning lines, lone CR, and lexer parse-error sub-ranges are not covered.',
    ref='DESIGN.md §4 C17')
 CHECKS['C18'] = dict(
